@@ -17,6 +17,8 @@ const STUB_SERVER_TCP: &str = "network (simtokio), clock, executor, peer (direct
 
 const REAL_SERVER_RTU: &str = "rodbus RTU server task (open/retry loop), server session task, RTU parser (length rules, CRC check), ReadBuffer, FrameWriter (RTU), request parsing, broadcast fan-out, PhysLayer inter-character delay";
 const STUB_SERVER_RTU: &str = "serial port registry (simserial), clock, executor, line peer (director), application handlers (instrumented point memory)";
+const REAL_E2E: &str = "rodbus TCP client task and TCP server task + session tasks together (both ends real): request serialisation, MBAP framing in both roles, request handling, reply parsing, time-outs, reconnects";
+const STUB_E2E: &str = "the network between them: a relay owned by the director (two simulated connections; it moves bytes in pieces, stalls with a small client window, carries closes across), clock, executor (simtokio); handlers: instrumented point memory";
 const REAL_CLIENT_RTU: &str = "rodbus RTU client task (open/retry loop, ClientLoop), RTU response parser and CRC check, FrameWriter (RTU), PhysLayer inter-character delay, Channel / CallbackSession handles";
 const STUB_CLIENT_RTU: &str = "serial port registry (simserial), clock, executor, line peer (director), port-state listener (recording)";
 const REAL_TLS: &str = "rodbus TLS server/client config construction (MinTlsVersion mapping), rodbus TCP server/client tasks with TLS connection handler, role extraction (rx509), sfio-rustls-config verifiers, rustls + tokio-rustls handshakes and record layer, ring";
@@ -43,6 +45,8 @@ pub fn get(prop: &str, tier: &str) -> Option<Check> {
                 Batch { name: "server_tcp_racy", f: scen::server_tcp::run_racy, cfg: cfg(Mode::Racy, true, 0), runs: n(30_000, 1_000_000), real: REAL_SERVER_TCP, stub: STUB_SERVER_TCP },
                 Batch { name: "rtu_server_edge", f: scen::rtu::run_server_edge, cfg: cfg(Mode::Racy, true, 0), runs: n(20_000, 500_000), real: REAL_SERVER_RTU, stub: STUB_SERVER_RTU },
                 Batch { name: "tls_server_sessions", f: scen::tls::run_tls_sessions, cfg: cfg(Mode::LockStep, false, 0), runs: n(3_000, 100_000), real: REAL_TLS, stub: STUB_TLS },
+                Batch { name: "e2e_relay", f: scen::e2e::run, cfg: cfg(Mode::Racy, false, 0), runs: n(10_000, 300_000), real: REAL_E2E, stub: STUB_E2E },
+                Batch { name: "e2e_relay_stalls", f: scen::e2e::run, cfg: cfg(Mode::Racy, true, 0), runs: n(15_000, 400_000), real: REAL_E2E, stub: STUB_E2E },
             ],
             assumptions: vec!["model::server encodes the Modbus application protocol as stated in C01 (DESIGN.md A.1)", "byte-count field of write-multiple requests is not part of the statement"],
         },
@@ -56,6 +60,8 @@ pub fn get(prop: &str, tier: &str) -> Option<Check> {
                 Batch { name: "tls_authz_model", f: scen::tls::run_authz_model, cfg: cfg(Mode::Racy, false, 0), runs: n(3_000, 100_000), real: REAL_TLS, stub: STUB_TLS },
                 Batch { name: "server_tcp_racy", f: scen::server_tcp::run_racy, cfg: cfg(Mode::Racy, true, 0), runs: n(30_000, 1_000_000), real: REAL_SERVER_TCP, stub: STUB_SERVER_TCP },
                 Batch { name: "rtu_server_edge", f: scen::rtu::run_server_edge, cfg: cfg(Mode::Racy, true, 0), runs: n(20_000, 500_000), real: REAL_SERVER_RTU, stub: STUB_SERVER_RTU },
+                Batch { name: "e2e_relay", f: scen::e2e::run, cfg: cfg(Mode::Racy, false, 0), runs: n(10_000, 300_000), real: REAL_E2E, stub: STUB_E2E },
+                Batch { name: "e2e_relay_stalls", f: scen::e2e::run, cfg: cfg(Mode::Racy, true, 0), runs: n(15_000, 400_000), real: REAL_E2E, stub: STUB_E2E },
             ],
             assumptions: vec!["handlers are the harness's instrumented point memory"],
         },
@@ -81,6 +87,8 @@ pub fn get(prop: &str, tier: &str) -> Option<Check> {
                 Batch { name: "client_encoding_small_window", f: scen::client::run_encoding, cfg: cfg(Mode::LockStep, true, 0), runs: n(20_000, 500_000), real: REAL_CLIENT_TCP, stub: STUB_CLIENT_TCP },
                 Batch { name: "client_lockstep", f: scen::client::run_lockstep, cfg: cfg(Mode::LockStep, false, 0), runs: n(30_000, 500_000), real: REAL_CLIENT_TCP, stub: STUB_CLIENT_TCP },
                 Batch { name: "client_encoding_rtu", f: scen::client::run_encoding_rtu, cfg: cfg(Mode::LockStep, false, 0), runs: n(40_000, 1_500_000), real: REAL_CLIENT_RTU, stub: STUB_CLIENT_RTU },
+                Batch { name: "e2e_relay", f: scen::e2e::run, cfg: cfg(Mode::Racy, false, 0), runs: n(10_000, 300_000), real: REAL_E2E, stub: STUB_E2E },
+                Batch { name: "e2e_relay_stalls", f: scen::e2e::run, cfg: cfg(Mode::Racy, true, 0), runs: n(15_000, 400_000), real: REAL_E2E, stub: STUB_E2E },
             ],
             assumptions: vec!["the 2^32 AddressRange::try_from arguments are sampled on a boundary lattice, not enumerated (pure function)"],
         },
@@ -94,6 +102,8 @@ pub fn get(prop: &str, tier: &str) -> Option<Check> {
                 Batch { name: "client_lockstep_rtu", f: scen::client::run_lockstep_rtu, cfg: cfg(Mode::LockStep, false, 2), runs: n(30_000, 800_000), real: REAL_CLIENT_RTU, stub: STUB_CLIENT_RTU },
                 Batch { name: "client_racy", f: scen::racy::run_client_racy, cfg: cfg(Mode::Racy, false, 0), runs: n(30_000, 1_000_000), real: REAL_CLIENT_TCP, stub: STUB_CLIENT_TCP },
                 Batch { name: "client_racy_faults", f: scen::racy::run_client_racy, cfg: cfg(Mode::Racy, true, 0), runs: n(30_000, 1_000_000), real: REAL_CLIENT_TCP, stub: STUB_CLIENT_TCP },
+                Batch { name: "e2e_relay", f: scen::e2e::run, cfg: cfg(Mode::Racy, false, 0), runs: n(10_000, 300_000), real: REAL_E2E, stub: STUB_E2E },
+                Batch { name: "e2e_relay_stalls", f: scen::e2e::run, cfg: cfg(Mode::Racy, true, 0), runs: n(15_000, 400_000), real: REAL_E2E, stub: STUB_E2E },
             ],
             assumptions: vec!["byte-count field of read replies is not examined (length is)"],
         },
@@ -131,6 +141,14 @@ pub fn get(prop: &str, tier: &str) -> Option<Check> {
             if p == "C10" || p == "C13" {
                 batches.push(Batch { name: "rtu_client_blocked_write", f: scen::robust::run_rtu_blocked_write, cfg: cfg(Mode::Racy, true, 0), runs: n(4_000, 100_000), real: REAL_CLIENT_RTU, stub: STUB_CLIENT_RTU });
                 batches.push(Batch { name: "client_blocked_write", f: scen::robust::run_client_blocked_write, cfg: cfg(Mode::Racy, true, 0), runs: n(5_000, 150_000), real: REAL_CLIENT_TCP, stub: STUB_CLIENT_TCP });
+            }
+            if p == "C10" || p == "C13" {
+                batches.push(Batch { name: "client_zero_retry_delay", f: scen::client::run_zero_retry, cfg: cfg(Mode::Racy, true, 0), runs: n(400, 10_000), real: REAL_CLIENT_TCP, stub: STUB_CLIENT_TCP });
+                batches.push(Batch { name: "rtu_client_zero_retry_delay", f: scen::client::run_zero_retry, cfg: cfg(Mode::Racy, true, 1), runs: n(400, 10_000), real: REAL_CLIENT_RTU, stub: STUB_CLIENT_RTU });
+            }
+            if p == "C10" || p == "C11" {
+                batches.push(Batch { name: "e2e_relay", f: scen::e2e::run, cfg: cfg(Mode::Racy, false, 0), runs: n(10_000, 300_000), real: REAL_E2E, stub: STUB_E2E });
+                batches.push(Batch { name: "e2e_relay_stalls", f: scen::e2e::run, cfg: cfg(Mode::Racy, true, 0), runs: n(15_000, 400_000), real: REAL_E2E, stub: STUB_E2E });
             }
             if p == "C10" {
                 batches.push(Batch { name: "ffi_client", f: scen::ffi::run_client, cfg: cfg(Mode::LockStep, false, 0), runs: n(10_000, 300_000), real: REAL_FFI, stub: STUB_FFI });
@@ -210,6 +228,8 @@ pub fn get(prop: &str, tier: &str) -> Option<Check> {
                 Batch { name: "backlog_vs_shutdown_tcp", f: scen::robust::run_backlog_vs_shutdown, cfg: cfg(Mode::Racy, true, 0), runs: n(20_000, 500_000), real: REAL_SERVER_TCP, stub: STUB_SERVER_TCP },
                 Batch { name: "backlog_vs_shutdown_rtu", f: scen::robust::run_backlog_vs_shutdown, cfg: cfg(Mode::Racy, true, 1), runs: n(5_000, 100_000), real: REAL_SERVER_RTU, stub: STUB_SERVER_RTU },
                 Batch { name: "rtu_server_edge", f: scen::rtu::run_server_edge, cfg: cfg(Mode::Racy, true, 0), runs: n(20_000, 500_000), real: REAL_SERVER_RTU, stub: STUB_SERVER_RTU },
+                Batch { name: "client_zero_retry_delay", f: scen::client::run_zero_retry, cfg: cfg(Mode::Racy, true, 0), runs: n(400, 10_000), real: REAL_CLIENT_TCP, stub: STUB_CLIENT_TCP },
+                Batch { name: "rtu_client_zero_retry_delay", f: scen::client::run_zero_retry, cfg: cfg(Mode::Racy, true, 1), runs: n(400, 10_000), real: REAL_CLIENT_RTU, stub: STUB_CLIENT_RTU },
             ],
             assumptions: vec!["peers that stop reading are injected by the C15 (sessions blocked writing), C13/C10 (client blocked writing), C03 and C20 scenarios rather than by the garbage workloads of this check", "a peer stalling inside the TLS handshake: scen::tls::run_handshake_stall (C15, C13 batches)"],
         },
